@@ -15,6 +15,7 @@ import (
 
 	"verif/engine/enumx"
 	"verif/engine/ev"
+	"verif/refdata"
 )
 
 // build runs flags.Parse + rule.Build; ok=false means the rule was rejected
@@ -31,9 +32,19 @@ func build(line string) (rule.Rule, []byte, error) {
 	return r, []byte(w), nil
 }
 
+var gdbSyscalls = refdata.SyscallsGDB()
+
+// syscallNumber: the number a name stands for in an ABI.  Where gdb's transcription of the
+// kernel's syscall.tbl knows the name (and spells the row like the library: refdata), that number
+// is the expectation; only for the remaining rows is the library's own table consulted.
 func syscallNumber(arch, tok string) (int64, bool) {
 	if n, err := strconv.ParseInt(tok, 10, 64); err == nil {
 		return n, true
+	}
+	for nr, name := range gdbSyscalls[arch] {
+		if name == tok {
+			return int64(nr), true
+		}
 	}
 	for nr, name := range auparse.AuditSyscalls[arch] {
 		if name == tok {
@@ -469,7 +480,7 @@ func forRuleSpecs(c *enumx.Ctx, visit func(c *enumx.Ctx, s spec)) {
 		}
 	}
 	// by name: every name of the published x86_64 and i386 tables, and other arches
-	for _, ar := range []struct{ flag, table string }{{"b64", "x86_64"}, {"b32", "i386"}, {"", "x86_64"}, {"aarch64", "aarch64"}, {"arm", "arm"}, {"ppc64", "ppc64"}, {"s390x", "s390x"}} {
+	for _, ar := range []struct{ flag, table string }{{"b64", "x86_64"}, {"b32", "i386"}, {"", "x86_64"}, {"aarch64", "aarch64"}, {"arm", "arm"}, {"ppc", "ppc"}, {"s390", "s390"}, {"s390x", "s390x"}} {
 		var names []string
 		for _, n := range auparse.AuditSyscalls[ar.table] {
 			names = append(names, n)
@@ -480,7 +491,7 @@ func forRuleSpecs(c *enumx.Ctx, visit func(c *enumx.Ctx, s spec)) {
 				continue
 			}
 			for i, n := range names {
-				if c.Tier != "thorough" && ((ar.table != "x86_64" && ar.table != "i386") || archOp == "!=") && i%10 != 0 {
+				if c.Tier != "thorough" && archOp == "!=" && i%10 != 0 {
 					continue
 				}
 				if !c.Mine() {
